@@ -1,4 +1,4 @@
-HOOK_COMMITS = []
+HOOK_COMMITS = ['5ba4b6489b25bf91c21fe682d007ad7174115283']
 NOTES = 'All checks are generated-input search (property-based testing / fuzzing) against explicit oracles; see DESIGN.md. Driver: ./check <id> --tier quick|thorough. Known and fixed genuine defects: known_findings.json.'
 ENGINES = [
  dict(name='pbt', path='harness/engine.h', serves_properties=[], kind_free_text='choice-sequence property engine: seeded generation, integrated shrinking (delta debugging over recorded draws), replay files, optional fork isolation per case; g++ ASan+UBSan'),
